@@ -284,7 +284,7 @@ def parseSkel (T : Table) (L : Ladder) (ts : List Tok) : Option Skel :=
 
 /-! ### Lexer
 
-Characters are Unicode code points (`Chr = Nat`), texts are `List Chr`; the driver converts.
+Characters are Unicode code points (`Nat = Nat`), texts are `List Nat`; the driver converts.
 `S` is the list of literal terminals of the grammar (regenerated: `Gen.symbolsC`), a symbol token
 carries the index of its terminal in `S`.
 
@@ -300,28 +300,28 @@ checks against Lark's real token stream. -/
 
 abbrev Chr := Nat
 
-def isLetter (c : Chr) : Bool := (65 ≤ c && c ≤ 90) || (97 ≤ c && c ≤ 122)
-def isDigitC (c : Chr) : Bool := 48 ≤ c && c ≤ 57
-def isIdStart (c : Chr) : Bool := isLetter c || c = 95
-def isIdChar (c : Chr) : Bool := isLetter c || isDigitC c || c = 95
-def isWs (c : Chr) : Bool := c = 32 || c = 10 || c = 9 || c = 13
+def isLetter (c : Nat) : Bool := (65 ≤ c && c ≤ 90) || (97 ≤ c && c ≤ 122)
+def isDigitC (c : Nat) : Bool := 48 ≤ c && c ≤ 57
+def isIdStart (c : Nat) : Bool := isLetter c || c = 95
+def isIdChar (c : Nat) : Bool := isLetter c || isDigitC c || c = 95
+def isWs (c : Nat) : Bool := c = 32 || c = 10 || c = 9 || c = 13
 
 /-- the token of a literal terminal -/
-def tokOfTerminal (S : List (List Chr)) (w : List Chr) : Tok :=
+def tokOfTerminal (S : List (List Nat)) (w : List Nat) : Tok :=
   if w = [40] then .lp else if w = [41] then .rp else if w = [46, 32] then .dot
   else if w = [105, 102] then .kif else if w = [116, 104, 101, 110] then .kthen else if w = [101, 108, 115, 101] then .kelse
   else .sym (S.idxOf w)
 
 /-- longest string terminal that is a prefix of the input, trying lengths `n, n-1, …, 1` -/
-def matchLen (S : List (List Chr)) (cs : List Chr) : Nat → Option (List Chr)
+def matchLen (S : List (List Nat)) (cs : List Nat) : Nat → Option (List Nat)
   | 0 => none
   | n + 1 =>
     if (cs.take (n + 1)).length = n + 1 ∧ S.contains (cs.take (n + 1)) = true then some (cs.take (n + 1))
     else matchLen S cs n
 
-def maxLen (S : List (List Chr)) : Nat := (S.map List.length).foldl max 0
+def maxLen (S : List (List Nat)) : Nat := (S.map List.length).foldl max 0
 
-def lexAux (S : List (List Chr)) : Nat → List Chr → List Tok → Option (List Tok)
+def lexAux (S : List (List Nat)) : Nat → List Nat → List Tok → Option (List Tok)
   | 0, _, _ => none
   | _ + 1, [], acc => some acc.reverse
   | f + 1, c :: cs, acc =>
@@ -336,10 +336,10 @@ def lexAux (S : List (List Chr)) : Nat → List Chr → List Tok → Option (Lis
       | some w => lexAux S f ((c :: cs).drop w.length) (tokOfTerminal S w :: acc)
       | none => none
 
-def lex (S : List (List Chr)) (cs : List Chr) : Option (List Tok) := lexAux S (cs.length + 1) cs []
+def lex (S : List (List Nat)) (cs : List Nat) : Option (List Tok) := lexAux S (cs.length + 1) cs []
 
 /-- identifier (CNAME) that is no literal terminal, or a numeral (INT) -/
-def NameOK (S : List (List Chr)) (w : List Chr) : Bool :=
+def NameOK (S : List (List Nat)) (w : List Nat) : Bool :=
   match w with
   | [] => false
   | c :: cs => (isIdStart c && cs.all isIdChar && !S.contains w) || (isDigitC c && cs.all isDigitC)
